@@ -259,10 +259,38 @@ type Termer struct {
 	// caller (inline.go), the call instruction in the caller: a field the
 	// callee does not store itself has the version it has there.
 	ctxAt ssa.Instruction
+	bind  []string
 }
 
 func NewTermer(fn *ssa.Function) *Termer {
-	return &Termer{fn: fn, memo: map[ssa.Value]string{}, active: map[ssa.Value]bool{}, Versioned: true}
+	t := &Termer{fn: fn, memo: map[ssa.Value]string{}, active: map[ssa.Value]bool{}, Versioned: true}
+	if b := inlineBind[fn]; b != nil {
+		t.bind, t.ctxAt = b.args, b.at
+	}
+	return t
+}
+
+// bindCtx: while a function that did not exist at review time is analysed
+// inline for one call site (inline.go), its parameters render as the caller's
+// argument terms and its field loads take the caller's versions at the call.
+type bindCtx struct {
+	args []string
+	at   ssa.Instruction
+}
+
+var inlineBind = map[*ssa.Function]*bindCtx{}
+
+func withBinding(g *ssa.Function, args []string, at ssa.Instruction, f func()) {
+	old := inlineBind[g]
+	inlineBind[g] = &bindCtx{args, at}
+	defer func() {
+		if old == nil {
+			delete(inlineBind, g)
+		} else {
+			inlineBind[g] = old
+		}
+	}()
+	f()
 }
 
 func Term(v ssa.Value) string {
@@ -339,6 +367,9 @@ func (t *Termer) term(v ssa.Value) string {
 	case *ssa.Const:
 		return constStr(x)
 	case *ssa.Parameter:
+		if i := paramIndex(x); t.bind != nil && i >= 0 && i < len(t.bind) {
+			return t.bind[i]
+		}
 		return fmt.Sprintf("$%d", paramIndex(x))
 	case *ssa.FreeVar:
 		// resolve through the MakeClosure in the parent
@@ -740,12 +771,15 @@ func fieldVersionAt(fv *types.Var, load ssa.Instruction) string {
 				// a new (virtually inlined, see inline.go) helper that stores the field
 				// counts as a store at the call, as it did before it was extracted
 				g := x.Common().StaticCallee()
-				if g == nil || !inlineable(g) || !storesField(g, fv, 2) {
+				if g == nil || !inlineableSites(g) || !storesField(g, fv, 2) {
 					continue
 				}
 				st = x
 			default:
 				continue
+			}
+			if st == load {
+				continue // the inlined helper's own loads are versioned by its own stores
 			}
 			if InstrDominates(st, load) {
 				if stInner, ok := st.(*ssa.Call); ok && conditionalStore(stInner.Common().StaticCallee(), fv) {
@@ -1316,7 +1350,7 @@ func storesField(g *ssa.Function, fv *types.Var, depth int) bool {
 				found = true
 			}
 		case *ssa.Call:
-			if h := x.Common().StaticCallee(); h != nil && depth > 0 && inlineable(h) && storesField(h, fv, depth-1) {
+			if h := x.Common().StaticCallee(); h != nil && depth > 0 && inlineableSites(h) && storesField(h, fv, depth-1) {
 				found = true
 			}
 		}
